@@ -90,6 +90,14 @@ def battery(s, rng):
         yield 'deal_hole', (None, i), 'index'
         if d1:
             yield 'deal_hole', (repr(d1[0]), i), 'dealable+index'
+        # bounds are per named player: exactly what he is owed / one more
+        owed = len(s.hole_dealing_statuses[i])
+        if owed:
+            yield 'deal_hole', (owed, i), 'owed+index'
+        yield 'deal_hole', (owed + 1, i), 'owed+1+index'
+        if len(dealable) > owed:
+            yield 'deal_hole', (''.join(map(repr, dealable[-(owed + 1):])),
+                                i), 'owed+1 cards+index'
     if len(d3) >= 3:
         yield 'deal_hole', (''.join(map(repr, d3[:2])),), 'dealable2'
         yield 'deal_hole', (repr(d3[0]) * 2,), 'duplicate'
